@@ -292,12 +292,18 @@ func excerpt(s string, lines int) string {
 
 func runConc(o *common.Options, rep *common.Report) error {
 	rng := common.NewRng(o.Seed)
-	n := o.Budget(1500, 60000)
+	n := o.Budget(1500, 40000)
 	for base := 0; base < n; base += batchSize {
 		m := min(batchSize, n-base)
 		cr, err := spawn(o, fmt.Sprintf("%d:%d:1", base, m))
 		if err != nil {
 			return err
+		}
+		if i := strings.Index(cr.stderr, "WARNING: DATA RACE"); i >= 0 { // only in the -race build (race.go)
+			rep.Fail(common.OracleFailure{Engine: "conc", Key: "data-race", Case: fmt.Sprintf("cases %d..%d of seed %d", base, base+m-1, o.Seed),
+				Detail: excerpt(cr.stderr[i:], 30)})
+			rep.Note("engine conc stopped: the race detector reported a data race in batch %d", base/batchSize)
+			return nil
 		}
 		if cr.died != "" && len(cr.started) == 0 { // did not even begin: not the pipe's doing
 			return fmt.Errorf("child process for cases %d.. failed: %s: %s", base, cr.died, excerpt(cr.stderr, 6))
